@@ -21,6 +21,22 @@ Theorem C12_lexer_progress : forall E, z_in 59 (delims E) = true ->
 Proof. exact kg_read_total_explicit. Qed.
 Print Assumptions C12_lexer_progress.
 
+(* progress of the parser: an expression reader (and with it _factor, _read_fn_args, _apply_adverbs,
+   read_cond, read_expr_array, which the proof treats simultaneously) never moves the index back; an
+   expression means at least one character was consumed; "no expression" means end of text.  This is the
+   invariant that makes every while-loop of the parser advance. *)
+Theorem C12_expr_progress : forall E, z_in 59 (delims E) = true -> comment_guard E = true ->
+  forall fuel ign s, (fuel >= 6 * length s + 4)%nat ->
+  match expr E fuel ign s with
+  | Ok p => (length (fst p) <= length s)%nat /\
+            (is_none (snd p) = false -> (length (fst p) < length s)%nat) /\
+            (is_none (snd p) = true -> fst p = [])
+  | Err _ => True
+  | OOF => False
+  end.
+Proof. exact expr_total_explicit. Qed.
+Print Assumptions C12_expr_progress.
+
 (* T12.total — parsing terminates on every text: with fuel 6*(|t|+1) (fuel = depth of calls and loop
    iterations) prog returns a program or an error, never OutOfFuel, and the returned index is inside
    the text.  Holds for every env whose marker loop in read_sys_comment is guarded. *)
@@ -66,6 +82,7 @@ Print Assumptions C12_unguarded_comment_refuted.
 Theorem C12_unguarded_prog_refuted :
   exists t, length t = 12%nat /\ forall fuel, prog (env_with_guard genv false) fuel t = OOF.
 Proof. exists r6_text. split; [reflexivity|exact r6_prog]. Qed.
+Print Assumptions C12_unguarded_prog_refuted.
 
 (* Non-vacuity: the regenerated env meets the hypotheses, and concrete texts parse / are rejected *)
 Example C12_env_example : z_in 59 (delims genv) = true /\ comment_guard genv = true.
